@@ -13,7 +13,7 @@
 #include "common/explore.hpp"
 #include "common/variants.hpp"
 
-enum Ctr { C_EXEC = 0, C_INPUTS, C_NONTRIV, C_POINTS, C_STATES, C_MAXOUT, C_MULTI, C_REDUCE_CALLS, C_FOR_CALLS, C_BLOCK, C_IMPURE, C_MAXTRACE, C_CAPPED_INPUTS, C_PRUNED, C_BODY_RUNS, C_MERGES, C_MULTILEAF, C_DIRECT_EXEC, C_IMPURE_INPUTS };
+enum Ctr { C_EXEC = 0, C_INPUTS, C_NONTRIV, C_POINTS, C_STATES, C_MAXOUT, C_MULTI, C_REDUCE_CALLS, C_FOR_CALLS, C_BLOCK, C_IMPURE, C_MAXTRACE, C_CAPPED_INPUTS, C_PRUNED, C_BODY_RUNS, C_MERGES, C_MULTILEAF, C_DIRECT_EXEC, C_IMPURE_INPUTS, C_IDLEAF };
 
 typedef double W;
 typedef vb::Built<W> B;
@@ -131,7 +131,7 @@ static void explore_input(vr::Runner &R, const Cfg &cfg, const vg::EdgeList &el,
         R.count(C_PRUNED, st.pruned_by_bound);
         auto &S = tbb::vtbb_stats();
         R.count(C_REDUCE_CALLS, S.reduce_calls); R.count(C_FOR_CALLS, S.for_calls); R.count(C_BLOCK, S.reduce_block_mode_calls);
-        R.count(C_MULTI, S.reduce_multi_outcome_calls); R.count(C_IMPURE, S.impure_bodies); R.count(C_BODY_RUNS, S.reduce_body_runs); R.count(C_MERGES, S.merges);
+        R.count(C_MULTI, S.reduce_multi_outcome_calls); R.count(C_IMPURE, S.impure_bodies); R.count(C_BODY_RUNS, S.reduce_body_runs); R.count(C_MERGES, S.merges); R.count(C_IDLEAF, S.reduce_identity_leaf_calls);
         if (st.executions > 1) R.count(C_MULTILEAF, st.executions);
         // max counters (racy max is fine: monotone updates)
         uint64_t cur = R.counter(C_MAXOUT); if (S.reduce_max_outcomes > cur) R.sh->counters[C_MAXOUT].store(S.reduce_max_outcomes);
@@ -214,10 +214,10 @@ int main(int argc, char **argv) {
     fprintf(o, "{\"harness\":\"sched_tbb\",\"evaluations\":%" PRIu64 ",\"inputs\":%" PRIu64 ",\"distinct_nontrivial\":%" PRIu64 ",\"schedules\":%" PRIu64
             ",\"states\":%" PRIu64 ",\"transitions\":%" PRIu64 ",\"reduce_calls\":%" PRIu64 ",\"reduce_body_runs\":%" PRIu64 ",\"reduce_max_outcomes\":%" PRIu64 ",\"reduce_multi_outcome_calls\":%" PRIu64
             ",\"reduce_block_mode_calls\":%" PRIu64 ",\"for_calls\":%" PRIu64 ",\"push_merges\":%" PRIu64 ",\"max_choice_points_in_one_execution\":%" PRIu64 ",\"inputs_hitting_execution_cap\":%" PRIu64
-            ",\"alternatives_pruned_by_deviation_bound\":%" PRIu64 ",\"direct_mode_schedules\":%" PRIu64 ",\"reduce_bodies_found_impure\":%" PRIu64 ",\"inputs_decided_by_direct_mode_only\":%" PRIu64 ",\"deviation_bound\":%d,\"direct_deviation_bound\":%d,\"unbounded_for_dim_le\":%d"
+            ",\"alternatives_pruned_by_deviation_bound\":%" PRIu64 ",\"direct_mode_schedules\":%" PRIu64 ",\"reduce_bodies_found_impure\":%" PRIu64 ",\"inputs_decided_by_direct_mode_only\":%" PRIu64 ",\"reduce_calls_with_identity_leaf\":%" PRIu64 ",\"deviation_bound\":%d,\"direct_deviation_bound\":%d,\"unbounded_for_dim_le\":%d"
             ",\"units_total\":%" PRIu64 ",\"units_done\":%" PRIu64 ",\"capped\":%s,\"crashes\":%" PRIu64 ",\"hangs\":%" PRIu64 ",\"nviol\":%" PRIu64 ",\"wall_s\":%.3f,\n\"samples\":[",
             R.counter(C_EXEC), R.counter(C_INPUTS), R.counter(C_MULTILEAF), R.counter(C_EXEC), R.counter(C_STATES), R.counter(C_POINTS), R.counter(C_REDUCE_CALLS), R.counter(C_BODY_RUNS),
-            R.counter(C_MAXOUT), R.counter(C_MULTI), R.counter(C_BLOCK), R.counter(C_FOR_CALLS), R.counter(C_MERGES), R.counter(C_MAXTRACE), R.counter(C_CAPPED_INPUTS), R.counter(C_PRUNED), R.counter(C_DIRECT_EXEC), R.counter(C_IMPURE), R.counter(C_IMPURE_INPUTS),
+            R.counter(C_MAXOUT), R.counter(C_MULTI), R.counter(C_BLOCK), R.counter(C_FOR_CALLS), R.counter(C_MERGES), R.counter(C_MAXTRACE), R.counter(C_CAPPED_INPUTS), R.counter(C_PRUNED), R.counter(C_DIRECT_EXEC), R.counter(C_IMPURE), R.counter(C_IMPURE_INPUTS), R.counter(C_IDLEAF),
             cfg.bound, cfg.direct_bound, cfg.unbounded_dim, res.units_total, res.units_done, (res.capped || R.counter(C_CAPPED_INPUTS)) ? "true" : "false", res.crashes, res.hangs, res.nviol, wall);
     for (size_t i = 0; i < samples.size(); ++i) fprintf(o, "%s\"%s\"", i ? "," : "", vr::json_escape(samples[i]).c_str());
     fprintf(o, "],\n\"violations\":[");
